@@ -43,7 +43,7 @@ class Part(object):
     """One generated sub-check of a property."""
 
     def __init__(self, name, run_case, strategy=None, enumerate_cases=None,
-                 examples=None, shards=None, shrink=True, doc='', max_shrink_s=120):
+                 examples=None, shards=None, shrink=True, doc='', max_shrink_s=120, fuzz=None, fuzz_shards=None):
         self.name = name
         self.run_case = run_case
         self.strategy = strategy              # callable(tier) -> hypothesis strategy
@@ -53,6 +53,15 @@ class Part(object):
         self.shrink = shrink
         self.doc = doc
         self.max_shrink_s = max_shrink_s
+        # coverage-guided engine (atheris), thorough tier: total runs over all fuzz shards.  Default: an eighth of
+        # the thorough example count.  fuzz=False switches it off (parts that start real worker processes).
+        if fuzz is False or strategy is None:
+            self.fuzz = {'quick': 0, 'thorough': 0}
+        elif fuzz is None:
+            self.fuzz = {'quick': 0, 'thorough': max(64, self.examples['thorough'] // 8)}
+        else:
+            self.fuzz = dict({'quick': 0, 'thorough': 0}, **fuzz)
+        self.fuzz_shards = fuzz_shards or {'quick': 0, 'thorough': 4}
 
 
 def canonical(case):
@@ -171,7 +180,8 @@ class time_limit(object):
     def __exit__(self, et, ev, tb):
         import signal
         signal.setitimer(signal.ITIMER_REAL, 0)
-        signal.signal(signal.SIGALRM, self._old)
+        # a handler installed from C (libFuzzer/atheris) is reported as None and cannot be put back from Python
+        signal.signal(signal.SIGALRM, self._old if self._old is not None else signal.SIG_DFL)
         if et is not None and issubclass(et, _HangSignal):
             raise Violation(self.signature, '%s did not return within %ss' % (self.what, self.seconds))
         return False
